@@ -246,6 +246,29 @@ def threshold_fields(rng, kind=None):
     return {"incl": "%8.4f" % incl, "ecc": "%07d" % e7, "mmotion": "%11.8f" % mm}, kind
 
 
+def twin_of(rng, l1, l2, regime="near"):
+    """A DIFFERENT element set for the same catalogue number and epoch as (l1, l2) (a re-issued / corrected set): anything
+    keyed on (satellite number, epoch) must not confuse the two."""
+    f = random_fields(rng, regime)
+    f["satnum"] = l1[2:7]
+    f["epoch_year"] = l1[18:20]
+    f["epoch_day"] = l1[20:32]
+    return encode(f)
+
+
+def with_twins(rng, cases, every=6, regime="near"):
+    """Insert after every `every`-th (l1, l2) a twin of it."""
+    out = []
+    for i, (a, b) in enumerate(cases):
+        out.append((a, b))
+        if i % every == every - 1:
+            try:
+                out.append(twin_of(rng, a, b, regime))
+            except Exception:  # noqa
+                pass
+    return out
+
+
 def random_tle(rng, regime="any", overrides=None):
     f = random_fields(rng, regime, overrides)
     l1, l2 = encode(f)
